@@ -225,6 +225,7 @@ type Unit struct {
 	thName   string
 	pureSeq  int
 	dynAlias map[string]string
+	resultNames map[string]Term
 	usedBounded map[string]string // bounded-only clauses relied upon -> adapter
 	usedEnsures map[string]bool   // in-module callee ensures relied upon (obligation names)
 }
